@@ -246,7 +246,8 @@ def ref(k):
 
 
 # A, B, C overlap pairwise (A and B share object 1/n1, B and C share 1/n2); D is empty;
-# E keeps 1/n1 (shared with A and B) in ObjectSlice 7 only; F has 1/n5 inline and 1/n2 (shared with B, C) in ObjectSlice 8.
+# E keeps 1/n1 (shared with A and B) in ObjectSlice 7 only; F has 1/n5 inline and 1/n2 (shared with B, C) in ObjectSlice 8;
+# G has 1/n6 inline and references ObjectSlice 9, which does not exist (not yet visible / removed by a third party).
 ALPHABET = [
     [ph(1, [po(1, 1), po(2, 3)])],
     [ph(1, [po(1, 1, body=2), po(1, 2)])],
@@ -254,6 +255,7 @@ ALPHABET = [
     [],
     [ph(1, [ref(7)])],
     [ph(1, [po(1, 5), ref(8)])],
+    [ph(1, [po(1, 6), ref(9)])],
 ]
 SLICES = [{"name": 7, "objects": [po(1, 1, body=3)]}, {"name": 8, "objects": [po(1, 2, body=3)]}]
 
